@@ -49,7 +49,7 @@ def outcome(fn):
 
 def run_pair(an, bn):
     obs = {"compat": False, "equiv": False, "fac": [], "temp": [[0, 1]] * 3, "link": "", "linkfac": [],
-           "prep": "", "relabel": True}
+           "prep": "", "relabel": True, "linksame": []}
     ua, ub = fm.UNITS.Unit(an), fm.UNITS.Unit(bn)
     obs["compat"] = bool(fm.data.tools.compatible_units(ua, ub))
     obs["equiv"] = bool(fm.data.tools.equivalent_units(ua, ub))
@@ -78,6 +78,26 @@ def run_pair(an, bn):
             obs["linkfac"] = []
         elif not obs["fac"]:
             obs["linkfac"] = []          # temperatures: compared through temp
+    # ... the same value must arrive however the link is used: a static link read twice, an
+    # integer-typed payload
+    if res == "ok" and obs["compat"]:
+        ref = mags[1]
+
+        def variant(static, payload):
+            o, i = fm.Output(name="Out", static=static), fm.Input(name="In", static=static)
+            o >> i  # pylint: disable=pointless-statement
+            i.ping()
+            t0 = None if static else day(0)
+            o.push_info(fm.Info(time=t0, grid=fm.NoGrid(), units=an))
+            i.exchange_info(fm.Info(time=t0, grid=fm.NoGrid(), units=bn))
+            o.push_data(payload, t0)
+            got = i.pull_data(day(0))
+            if static:
+                got = i.pull_data(day(2))
+            return float(fm.data.get_magnitude(got)[0])
+        for static, payload in ((True, np.array([1.0])), (False, np.array([1])), (True, np.array([1]))):
+            r3, v3 = outcome(lambda s=static, p=payload: variant(s, p))
+            obs["linksame"].append(bool(r3 == "ok" and abs(v3 - ref) <= 1e-12 * max(1.0, abs(ref))))
     # publishing a quantity given in units a on an output that declares units b
     res, _ = outcome(lambda: fm.data.prepare(fm.UNITS.Quantity(np.array([1.0]), ua),
                                              fm.Info(time=day(0), grid=fm.NoGrid(), units=bn)))
